@@ -111,6 +111,13 @@ func Family(tier string, extraLens []int) []tmpl.Env {
 			envs = append(envs, e)
 		}
 	}
+	// -pkg <src>_test and -pkg <src> (explicitly the source package)
+	for bits := 0; bits < 8; bits++ {
+		for _, ms := range []tmpl.MockShape{{Methods: []tmpl.MethodShape{big, nul}}, {}} {
+			envs = append(envs, tmpl.Env{Stub: bits&1 != 0, SkipEnsure: bits&2 != 0, WithResets: bits&4 != 0, External: true, DestTest: true, Mocks: []tmpl.MockShape{ms}})
+			envs = append(envs, tmpl.Env{Stub: bits&1 != 0, SkipEnsure: bits&2 != 0, WithResets: bits&4 != 0, ExplicitSame: true, Mocks: []tmpl.MockShape{ms}})
+		}
+	}
 	// sync under an alias (a source package that imports something else named sync)
 	for bits := 0; bits < 8; bits++ {
 		envs = append(envs, tmpl.Env{Stub: bits&1 != 0, WithResets: bits&2 != 0, External: bits&4 != 0, SyncAliased: true,
